@@ -485,8 +485,29 @@ def rule_f(repo, chk):
     chk.floor('C11.f', len(regs), 2, '(registrations in used_names)')
 
 
+def rule_g(repo, chk):
+    chk.clause('C11.g', 'pass-through detection and the keyword boundary: (1) _goes_to_param_name decides by goto alone (path summary equals the pinned '
+                        'one); (2) in _iter_arguments an argument `name=value` counts as the NAMED argument as soon as the cursor is behind the `=` '
+                        '(second.start_pos < position), so that the index points at the named parameter while its value is typed')
+    from ..summaries import check_summary
+    check_summary(repo, chk, 'C11.g', 'jedi.inference.star_args', '_goes_to_param_name')
+    f = repo.find('jedi.api.helpers', '_iter_arguments')
+    ys = [y for y in own_nodes(f) if isinstance(y, ast.Yield) and isinstance(y.value, ast.Tuple) and len(y.value.elts) == 3
+          and isinstance(y.value.elts[2], ast.Constant) and y.value.elts[2].value is True and norm(y.value.elts[1]) in ('first.value', 'node.children[0].value')]
+    chk.floor('C11.g', len(ys), 1, 'the yield of a named argument in _iter_arguments')
+    from ..lib import dominating_facts, atom_key
+    want_k, want_p = atom_key(ast.parse('second.start_pos < position', mode='eval').body, None)
+    for y in ys:
+        facts = [atom_key(e, f) + (pol,) for e, pol in dominating_facts(f, y)]
+        pos = [(k, p == pol) for k, p, pol in facts if 'position' in k]
+        ok = pos in ([(want_k, want_p)], [(want_k.replace('second', 'node.children[1]'), want_p)])
+        chk.ob('C11.g', ok, y, 'a `name=` argument is reported as named exactly when the `=` starts before the cursor (second.start_pos < position)',
+               'position tests in front of it: %s' % [k for k, _ in pos])
+        chk.ob('C11.g', norm(y.value.elts[1]) in ('first.value', 'node.children[0].value') and norm(y.value.elts[0]) == '0', y, 'what is reported is the keyword\'s own text, star count 0')
+
+
 def describe(chk):
     chk.undecided('the index case analysis beyond its keyword guard and equality with inspect.signature (value dependent); *args/**kwargs pass-through resolution beyond the kind x forwarding dispatch of process_params')
 
 
-RULES = [('C11.a', rule_a), ('C11.b', rule_b), ('C11.c', rule_c), ('C11.d', rule_d), ('C11.e', rule_e), ('C11.f', rule_f)]
+RULES = [('C11.a', rule_a), ('C11.b', rule_b), ('C11.c', rule_c), ('C11.d', rule_d), ('C11.e', rule_e), ('C11.f', rule_f), ('C11.g', rule_g)]
